@@ -28,7 +28,7 @@ REAL = ["bec2format.bf3file (set_config, derive_comments_from_config, writer, re
         "(derive_auth_blocks_from_config, Bec2File)", "bec2format.configid", "plug-in + pyaes"]
 STUBS = ["medium: SimFS (ENOSPC for failed writes, restart)", "RNG: SimRng", "RefCfg: model of components / comments / "
          "block kinds + own TLV block decoder"]
-PROBES = ["runs-with-assertions-disabled", "bf3-write-default-key", "edit-through-kept-list-reference", "two-packages-aliasing-check", "second-file-object", "second-set-config", "component-without-type-before-config", "set-config-after-reload", "derive-after-reload",
+PROBES = ["variant-package-sharing-components", "runs-with-assertions-disabled", "bf3-write-default-key", "edit-through-kept-list-reference", "two-packages-aliasing-check", "second-file-object", "second-set-config", "component-without-type-before-config", "set-config-after-reload", "derive-after-reload",
           "failed-write", "stale-derived-comment-candidate", "derive-blocks-on-empty", "update-block-expected",
           "insert-behind-config"]
 ASSUMPTIONS = ["identifier existence rule taken from the C12 text: version present and (numeric scheme complete or name present)"]
@@ -42,6 +42,13 @@ def gen(st, tier):
             for n, c, b in (("full", True, False), ("none", False, True), ("name-only", True, None),
                             (w.choice(["dev", "both", "dev-noname"]), True if w.random() < 0.7 else None, None),
                             (None, None, None))]
+    for c_ in cfgs:
+        # "delete this value" entries (content None): legal in a configuration, and for the security code it
+        # means that the configuration has none
+        if not any((k_, v_) == (0x0202, 0x82) for k_, v_, _ in c_) and w.random() < 0.35:
+            c_.insert(w.randint(0, len(c_)), [0x0202, 0x82, None])
+        if w.random() < 0.15:
+            c_.insert(w.randint(0, len(c_)), [w.choice([0x1111, 0x0301, 0x7FFF]), 0x7F, None])
     ops = []
     n = w.choice([3, 4, 5, 6, 8, 10, 12])
     for _ in range(n):
@@ -66,6 +73,9 @@ def gen(st, tier):
         elif r < 0.76:
             ops.append(["comment", w.choice(["FirmwareId", "Note", "X"]),
                         w.choice([None, "1053", "abc def", "v: 2"])])
+        elif r < 0.775:
+            # a per-device variant: a second package made from the same component objects gets another configuration
+            ops.append(["variant", w.randrange(5)])
         elif r < 0.79:
             ops.append(["fresh_file"])
         elif r < 0.815:
@@ -250,6 +260,27 @@ def run(case):
                                  "configuration component of this package (shared description object)")
                     prev_cfg_comp.description.pop(0x7E, None)
                 out.ev("set_config", ci, len(bf3.components))
+            elif k == "variant":
+                _, ci = op
+                before_all = [snap_comp(c) for c in bf3.components]
+                var = env.bf3file.Bf3File(dict(bf3.comments), bf3.components)   # copies the list, shares the objects
+                try:
+                    var.set_config(cfgs[ci])
+                except Exception as e:
+                    out.fail("C11.set_config-raises", exc_site(e), "set_config on a variant package raised %s: %s"
+                             % (type(e).__name__, e))
+                    break
+                out.probes["variant-package-sharing-components"] += 1
+                if [snap_comp(c) for c in bf3.components] != before_all:
+                    out.fail("C11.others-untouched", "variant-changed-base", "set_config on a second package made from "
+                             "the same component objects changed the components of the first package")
+                fresh = env.bf3file.Bf3File()
+                fresh.set_config(cfgs[ci])
+                vc = [c for c in var.components if is_cfg_comp(c)]
+                if len(vc) != 1 or snap_comp(vc[0]) != snap_comp(fresh.components[0]):
+                    out.fail("C11.config-history", "variant-differs-from-fresh", "the variant's configuration component "
+                             "differs from the one a fresh file gets for the same configuration")
+                out.ev("variant", ci, len(var.components))
             elif k == "derive_comments":
                 _, ci = op
                 cfg = cfgs[ci]
